@@ -156,7 +156,7 @@ Proof.
   destruct (Nat.eqb (i_ty it) T_PARAMETER || Nat.eqb (i_ty it) T_COMPUTATION) eqn:Epc.
   { assert (Hin : In (i_ty it, n_dimension) default_sites).
     { apply orb_prop in Epc. destruct Epc as [E|E]; apply Nat.eqb_eq in E; rewrite E; cbn [default_sites In]; tauto. }
-    intros H. bind_inv H. bind_inv H. bind_inv H. rename a1 into it1. apply OK_inj_ in H. subst it'.
+    intros H. bind_inv H. bind_inv H. rename a0 into it1, H1 into H2. cbv zeta in H. bind_inv H. apply OK_inj_ in H. subst it'.
     pose proof (cosd_keeps _ _ _ Hin H2) as E1. eapply keeps_trans; [exact E1|].
     destruct (spv_truthy (fst (get_attr it (aidx (i_ty it) n_values))) && negb (spv_truthy (fst (get_attr it1 (aidx (i_ty it) n_dimension))))) eqn:C; [|apply keeps_refl].
     apply andb_prop in C. destruct C as [_ C]. apply negb_true_iff in C. destruct E1 as [Et _].
@@ -169,7 +169,7 @@ Proof.
   destruct (Nat.eqb (i_ty it) T_CALCOEF).
   { destruct (counts_equal _ _); intros H; inv H. apply keeps_refl. }
   destruct (Nat.eqb_spec (i_ty it) T_CALMEAS) as [Hm|_].
-  { intros H. bind_inv H. destruct (negb (counts_equal _ _)); [discriminate|].
+  { intros H. destruct (negb (counts_equal _ _)); [discriminate|]. bind_inv H. rename a into itm, H0 into Hfold. bind_inv H. apply OK_inj_ in H. subst it'.
     assert (G : forall names a0 b, keeps it a0 ->
               fold_left (fun acc n => do a <- acc; check_or_set_dimensionality a (fst (get_attr a (aidx (i_ty it) n)))) names (OK a0) = OK b ->
               keeps it b).
@@ -179,7 +179,7 @@ Proof.
       - apply (IH a1 b); [|exact Hf]. eapply keeps_trans; [exact E0|]. eapply cosd_keeps; [|exact Ec].
         destruct E0 as [Es _]. rewrite Es, Hm. cbn [default_sites In]. tauto.
       - exfalso. clear -Hf. induction names as [|x xs IHx]; cbn in Hf; [discriminate | auto]. }
-    eapply G; [apply keeps_refl | exact H]. }
+    eapply G; [apply keeps_refl | exact Hfold]. }
   destruct (Nat.eqb (i_ty it) T_SPLICE).
   { repeat match goal with
            | |- match ?c with _ => _ end = OK _ -> _ => destruct c
@@ -195,8 +195,10 @@ Proof.
 Qed.
 
 (* ---------- states ---------- *)
+(* everything of a logical file except its data dictionary: header fields, registry, no-format calls *)
+Definition lf_static (f : lfile) := (l_hid f, l_seq f, l_ident f, l_fh_origin f, l_reg f, l_nofmt f).
 Definition skeeps (st st' : bstate) : Prop :=
-  b_sets st' = b_sets st /\ b_phys st' = b_phys st /\ map l_reg (b_lfs st') = map l_reg (b_lfs st)
+  b_sets st' = b_sets st /\ b_phys st' = b_phys st /\ map lf_static (b_lfs st') = map lf_static (b_lfs st)
   /\ forall i, keeps (item_at st i) (item_at st' i).
 
 Lemma skeeps_refl st : skeeps st st.
@@ -223,7 +225,13 @@ Proof.
   destruct (Nat.ltb _ _); [exact K | apply keeps_refl].
 Qed.
 
-Lemma set_lf_skeeps st l f f' : lf_at st l = Some f -> l_reg f' = l_reg f -> skeeps st (set_lf st l f').
+Lemma skeeps_regs st st' : skeeps st st' -> map l_reg (b_lfs st') = map l_reg (b_lfs st).
+Proof.
+  intros (_ & _ & L & _). apply (f_equal (map (fun x : list Z * Z * list Z * option Z * reg * list (raw * payload_in) => snd (fst x)))) in L.
+  rewrite !map_map in L. exact L.
+Qed.
+
+Lemma set_lf_skeeps st l f f' : lf_at st l = Some f -> lf_static f' = lf_static f -> skeeps st (set_lf st l f').
 Proof.
   intros Hl Hr. split; [reflexivity|]. split; [reflexivity|]. split; [|intros i; apply keeps_refl].
   unfold set_lf. cbn [b_lfs]. apply upd_map_same. intros y Hy. unfold lf_at in Hl. rewrite Hl in Hy. inv Hy. exact Hr.
@@ -231,7 +239,7 @@ Qed.
 
 Lemma skeeps_inv_reg st st' : skeeps st st' -> Inv_reg st -> Inv_reg st'.
 Proof.
-  intros (S & P & L & _) [Hp Hl]. unfold Inv_reg, skeys. rewrite S, P. split; [exact Hp|].
+  intros K [Hp Hl]. pose proof (skeeps_regs _ _ K) as L. destruct K as (S & P & _ & _). unfold Inv_reg, skeys. rewrite S, P. split; [exact Hp|].
   change (fun f => regk_ok (map skey (b_sets st)) (l_reg f)) with (fun f => (fun r => regk_ok (map skey (b_sets st)) r) (l_reg f)).
   rewrite <- Forall_map, L, Forall_map. exact Hl.
 Qed.
@@ -489,4 +497,26 @@ Proof.
   split; [exact Et|]. split.
   - intros Hne. destruct V as [E|R]; [exfalso; apply Hne; exact E | exact R].
   - intros Hne. destruct U as [E|R]; [exfalso; apply Hne; exact E | exact R].
+Qed.
+
+(* ---------- what _run_checks_and_set_defaults leaves satisfies the axis / dimension rule ---------- *)
+(* For PARAMETER, COMPUTATION and CALIBRATION-MEASUREMENT objects the axes are checked against the dimension AFTER the
+   dimension has been derived from the values: the object a successful check leaves behind passes the check again. (Before
+   the repair of D23 in /repo the check came first: an object whose derived dimension contradicted its axes was written
+   once, and the second write of the same DLISFile raised.) *)
+Lemma run_checks_axis_checked st it it' :
+  run_checks st it = OK it' ->
+  (Nat.eqb (i_ty it) T_PARAMETER || Nat.eqb (i_ty it) T_COMPUTATION || Nat.eqb (i_ty it) T_CALMEAS) = true ->
+  check_axis_vs_dimension st it' = OK tt.
+Proof.
+  unfold run_checks. cbv zeta. intros H Hty.
+  destruct (Nat.eqb_spec (i_ty it) T_ORIGIN) as [Ho|_]; [rewrite Ho in Hty; discriminate|].
+  destruct (Nat.eqb_spec (i_ty it) T_CHANNEL) as [Hc|_]; [rewrite Hc in Hty; discriminate|].
+  destruct (Nat.eqb (i_ty it) T_PARAMETER || Nat.eqb (i_ty it) T_COMPUTATION) eqn:Epc.
+  { bind_inv H. bind_inv H. bind_inv H. apply OK_inj_ in H. subst it'. destruct a1. exact H2. }
+  cbn [orb] in Hty. apply Nat.eqb_eq in Hty.
+  destruct (Nat.eqb_spec (i_ty it) T_ZONE) as [Hz|_]; [rewrite Hz in Hty; discriminate|].
+  destruct (Nat.eqb_spec (i_ty it) T_CALCOEF) as [Hz|_]; [rewrite Hz in Hty; discriminate|].
+  destruct (Nat.eqb_spec (i_ty it) T_CALMEAS) as [_|Hn]; [|congruence].
+  destruct (negb (counts_equal _ _)); [discriminate|]. bind_inv H. bind_inv H. apply OK_inj_ in H. subst it'. destruct a0. exact H1.
 Qed.
